@@ -17,10 +17,10 @@ TARGET = _real_os.path.join(REPO, 'playback', 'studio', 'equalizer.py')
 
 WORKER_ONLY = ('worker_exit', 'worker_abort', 'worker_hang', 'worker_late_answer', 'worker_late_death')
 BEHAVIOURS = ['equal', 'different', 'player_raises', 'operation_raises', 'extractor_raises', 'comparator_raises', 'comparator_bare_status', 'slow',
-              'worker_exit', 'worker_abort', 'worker_hang', 'worker_late_answer', 'worker_late_death']
+              'worker_exit', 'worker_abort', 'worker_hang', 'worker_late_answer', 'worker_late_death', 'spawns_helper']
 
 ALLOWED = {
-    'equal': ['Equal'], 'slow': ['Equal'], 'different': ['Different'],
+    'equal': ['Equal'], 'slow': ['Equal'], 'different': ['Different'], 'spawns_helper': ['Equal'],
     'player_raises': ['EqualizerFailure'], 'operation_raises': ['EqualizerFailure'], 'extractor_raises': ['EqualizerFailure'], 'comparator_raises': ['EqualizerFailure'],
     'comparator_bare_status': ['Fixed'],
     'worker_exit': ['EqualizerFailure'], 'worker_abort': ['EqualizerFailure'], 'worker_hang': ['EqualizerFailure'],
@@ -41,6 +41,7 @@ class World(object):
         self.late_eps = {}
         self.dedicated = True
         self.handled = {}           # pid -> number of replays served
+        self.helped = {}
         self.played = []            # (pid, tag)
         self.hang_ignores_sigterm = False
         self.unprintable_errors = False
@@ -114,6 +115,15 @@ def behave(world, tag):
     if b == 'operation_raises':
         world.run.fault('operation_raises')
         raise RuntimeError('replayed operation fails for %s' % tag)
+    if b == 'spawns_helper' and world.mp is not None:
+        # the replayed operation does part of its work in a helper process of its own (a pool, a subprocess wrapper)
+        world.run.probe('replayed_operation_starts_a_helper_process')
+        box = world.helped.setdefault(tag, [])
+        helper = world.mp.Process(target=_helper_main, args=(box, tag), name='helper')
+        helper.start()
+        helper.join()
+        if ('helped', tag) not in box:
+            raise RuntimeError('helper process did not run for %s' % tag)
     if b == 'slow':
         sim.sleep(0.3)
     elif b == 'worker_exit':
@@ -140,6 +150,10 @@ def behave(world, tag):
         # the parent gives up after ceil(timeout) seconds when computation costs time (jitter) and one polling slice
         # later when it is free; the late answer is aimed at that instant +- epsilon
         sim.sleep(world.timeout + (0.0 if sim.jitter else 1.0) + world.late_eps.get(tag, 0.0))
+
+
+def _helper_main(box, tag):
+    box.append(('helped', tag))       # (harness-owned shared memory: stands for whatever the helper hands back)
 
 
 class Player(object):
